@@ -363,16 +363,32 @@ class C04(Profile):
             'Non-trivial = >= 3 UIDs attributed to response codes.')
     assumptions = C01.assumptions + [
         'mailbox identity is the OBJECTID MAILBOXID reported by STATUS',
-        'the maildir restart-after-crash part of the quantifier is covered '
-        'by C15\'s crash-image engine, not here']
+        'the maildir restart-after-crash part of the quantifier: 12% of the '
+        'cases are crash-image histories (C15\'s engine: an image before '
+        'every mutating file-system operation and at the clean stop, a '
+        'brand-new backend on each), judged for UIDs only: UIDNEXT above '
+        'every UID present, one more APPEND per mailbox gets a UID above '
+        'every UID ever acknowledged in that UIDVALIDITY and not below the '
+        'UIDNEXT just reported']
     components = C01.components
 
     def gen(self, rng, tier):
         from .common import backends, finish_cfg
-        return finish_cfg(gen_uid_case(
-            rng, tier, backends=backends(self.BACKENDS)), rng)
+        bk = backends(self.BACKENDS)
+        if 'maildir' in bk and rng.random() < 0.12:
+            # the restart part of the quantifier: C15's crash-image engine,
+            # judged for UIDs (a new backend on every image reports UIDNEXT
+            # and stores one more message per mailbox)
+            from .c15 import gen_crash_case
+            case = gen_crash_case(rng, tier)
+            case['family'] = 'crash'
+            return case
+        return finish_cfg(gen_uid_case(rng, tier, backends=bk), rng)
 
     def run(self, case, trace=False):
+        if case.get('family') == 'crash':
+            from .c15 import run_crash
+            return run_crash(case, trace, prop='C04')
         return run_uids(case, trace)
 
 
